@@ -276,3 +276,328 @@ Qed.
 (* a mark that is not "*" was built without meeting "*" *)
 Lemma mark_not_star vv hs : make_mark vv hs <> star -> ~ In star (vary_items vv).
 Proof. intros H Hin. apply H. now apply make_mark_star. Qed.
+
+(* ================================================================== *)
+(* 4. what "reads the same" means, by kind of header                    *)
+
+(* the nominated names: for quote-free Vary text the strListGetItem loop is comma-split / OWS-trim /
+   drop-empty (C04's reading theorem), then lower-cased by assembleVaryKey *)
+Theorem vary_names_spec vv s : vary_value vv = Some s -> simple s = true -> vary_items vv = ref_items s.
+Proof. intros H Hs. unfold vary_items. rewrite H. now apply list_items_is_ref. Qed.
+
+Lemma ci_eqb_len a : forall b, ci_eqb a b = true -> lenN a = lenN b.
+Proof.
+  induction a as [|x a IH]; intros [|y b] H; cbn [ci_eqb] in H; try discriminate; [reflexivity|].
+  apply andb_prop in H. cbn [lenN]. now rewrite (IH b (proj2 H)).
+Qed.
+
+Lemma add_matching_ext p q hs s : (forall h, In h hs -> p h = q h) -> add_matching p hs s = add_matching q hs s.
+Proof.
+  revert s. induction hs as [|h hs IH]; intros s H; [reflexivity|]. cbn [add_matching].
+  rewrite (H h (or_introl eq_refl)). apply IH. intros h' Hin. apply H. now right.
+Qed.
+
+(* unregistered field name: every line whose name equals it ignoring case, joined *)
+Theorem read_unregistered hs name : lookup_id hdr_table name = hdr_OTHER ->
+  get_by_name hs name = joined_spec (line_values (fun h => ci_eqb (h_name h) name) hs).
+Proof.
+  intros Hid. unfold get_by_name. rewrite Hid, N.eqb_refl. cbn [negb andb].
+  rewrite <- add_matching_spec. apply add_matching_ext. intros h _. unfold name_matches.
+  destruct (ci_eqb (h_name h) name) eqn:E; [|now rewrite andb_false_r].
+  unfold hdr_id. rewrite (lookup_id_ci hdr_table _ _ E), Hid, N.eqb_refl, (ci_eqb_len _ _ E), N.eqb_refl. reflexivity.
+Qed.
+
+Lemma has_id_false_no_match hs id p : has_id hs id = false -> (forall h, p h = true -> hdr_id h = id) ->
+  forall s, add_matching p hs s = s.
+Proof.
+  intros Hh Hp. induction hs as [|h hs IH]; intros s; [reflexivity|]. cbn [add_matching].
+  unfold has_id in Hh. cbn [existsb] in Hh. apply orb_false_elim in Hh. destruct Hh as [H1 H2].
+  destruct (p h) eqn:E; [apply Hp in E; rewrite E, N.eqb_refl in H1; discriminate|]. apply IH, H2.
+Qed.
+
+(* registered list header (Accept, Accept-Encoding, Accept-Language, ...): every line with that header id, joined *)
+Theorem read_registered_list hs name : lookup_id hdr_table name <> hdr_OTHER -> is_list_hdr (lookup_id hdr_table name) = true ->
+  get_by_name hs name = joined_spec (line_values (fun h => hdr_id h =? lookup_id hdr_table name) hs).
+Proof.
+  intros Hid Hl. unfold get_by_name. apply N.eqb_neq in Hid. rewrite Hid. cbn [negb andb].
+  destruct (has_id hs (lookup_id hdr_table name)) eqn:Eh.
+  - unfold get_str_or_list, get_list. rewrite Hl, Eh. apply add_matching_spec.
+  - rewrite (has_id_false_no_match hs (lookup_id hdr_table name)); [|exact Eh|].
+    + unfold line_values. replace (filter _ hs) with (@nil hdr); [reflexivity|].
+      symmetry. clear Hl Hid. induction hs as [|h hs IH]; [reflexivity|]. unfold has_id in Eh. cbn [existsb] in Eh.
+      apply orb_false_elim in Eh. destruct Eh as [H1 H2]. cbn [filter]. rewrite H1. apply IH, H2.
+    + intros h Hm. unfold name_matches in Hm. apply andb_prop in Hm. destruct Hm as [_ Hc].
+      unfold hdr_id. now apply lookup_id_ci.
+Qed.
+
+(* registered single-value header (Cookie, User-Agent, Referer, ...): the FIRST line only; empty reads as absent *)
+Theorem read_registered_single hs name : lookup_id hdr_table name <> hdr_OTHER -> is_list_hdr (lookup_id hdr_table name) = false ->
+  get_by_name hs name =
+  match find (fun h => hdr_id h =? lookup_id hdr_table name) hs with
+  | Some e => match h_value e with [] => None | v => Some v end
+  | None => None
+  end.
+Proof.
+  intros Hid Hl. unfold get_by_name. apply N.eqb_neq in Hid. rewrite Hid. cbn [negb andb].
+  destruct (has_id hs (lookup_id hdr_table name)) eqn:Eh.
+  - unfold get_str_or_list. rewrite Hl. destruct (find _ hs) as [e|]; [|reflexivity].
+    destruct (h_value e); reflexivity.
+  - rewrite (has_id_false_no_match hs (lookup_id hdr_table name)); [|exact Eh|].
+    + replace (find _ hs) with (@None hdr); [reflexivity|]. symmetry. clear Hl Hid.
+      induction hs as [|h hs IH]; [reflexivity|]. unfold has_id in Eh. cbn [existsb] in Eh.
+      apply orb_false_elim in Eh. destruct Eh as [H1 H2]. cbn [find]. rewrite H1. apply IH, H2.
+    + intros h Hm. unfold name_matches in Hm. apply andb_prop in Hm. destruct Hm as [_ Hc].
+      unfold hdr_id. now apply lookup_id_ci.
+Qed.
+
+(* ================================================================== *)
+(* 5. varyEvaluateMatch and the cache: hits only on the same mark       *)
+
+Theorem match_only_same_mark e req_mark hs m :
+  vary_evaluate_match e req_mark hs = (VARY_MATCH, m) ->
+  m = e_mark e /\ m <> [] /\ e_vary e <> [] /\ (req_mark = [] -> m = make_mark (e_vary e) hs) /\ (req_mark <> [] -> m = req_mark).
+Proof.
+  unfold vary_evaluate_match. destruct (e_vary e) as [|v0 vr] eqn:Ev; cbn [negb orb].
+  - destruct (negb (is_nil req_mark)); [discriminate|discriminate].
+  - destruct (is_nil (e_mark e)) eqn:Em.
+    + destruct (negb (is_nil req_mark)); [discriminate|]. destruct (negb (is_nil (make_mark (v0 :: vr) hs))); discriminate.
+    + destruct req_mark as [|c r]; cbn [is_nil].
+      * destruct (make_mark (v0 :: vr) hs) as [|c r] eqn:Emk; cbn [is_nil negb]; [discriminate|].
+        destruct (list_eqb (c :: r) (e_mark e)) eqn:El; [|discriminate].
+        intros H. injection H as <-. apply list_eqb_eq in El. repeat split; try discriminate; try assumption; congruence.
+      * destruct (list_eqb (c :: r) (e_mark e)) eqn:El; [|discriminate].
+        intros H. injection H as <-. apply list_eqb_eq in El. repeat split; try discriminate; try assumption; congruence.
+Qed.
+
+(* ---- the store invariant for one URL whose origin always sends the Vary values vv ---- *)
+Definition slot_ok (vv : list bytes) (hist : list (list hdr)) (k : bytes) (e : entry) : Prop :=
+  (vv = [] /\ k = [] /\ e_vary e = [] /\ e_mark e = [] /\ exists hi, nthN (e_src e) hist = Some hi)
+  \/ (vv <> [] /\ k = [] /\ e = marker vv)
+  \/ (vv <> [] /\ k = e_mark e /\ e_vary e = vv /\ e_mark e <> [] /\ e_reval e = list_eqb (e_mark e) star /\
+      exists hi, nthN (e_src e) hist = Some hi /\ e_mark e = make_mark vv hi).
+Definition inv (vv : list bytes) (hist : list (list hdr)) (st : store) : Prop :=
+  forall k e, In (k, e) st -> slot_ok vv hist k e.
+
+Lemma lookup_in st k e : lookup st k = Some e -> In (k, e) st.
+Proof.
+  induction st as [|[k' e'] st IH]; cbn [lookup]; [discriminate|].
+  destruct (list_eqb k k') eqn:E; [|intros H; right; apply IH, H].
+  apply list_eqb_eq in E. subst k'. intros H. injection H as <-. now left.
+Qed.
+
+Lemma nthN_app_l {A} (a b : list A) : forall i x, nthN i a = Some x -> nthN i (a ++ b) = Some x.
+Proof.
+  induction a as [|y a IH]; intros i x H; cbn [nthN app] in *; [discriminate|].
+  destruct (i =? 0); [exact H|]. apply IH, H.
+Qed.
+Lemma nthN_lt {A} (a : list A) : forall i x, nthN i a = Some x -> i < lenN a.
+Proof.
+  induction a as [|y a IH]; intros i x H; cbn [nthN lenN] in *; [discriminate|].
+  destruct (i =? 0) eqn:E; [lia|]. specialize (IH _ _ H). lia.
+Qed.
+Lemma nthN_last {A} (a : list A) x : nthN (lenN a) (a ++ [x]) = Some x.
+Proof. rewrite <- (N.add_0_r (lenN a)), nthN_app_skip. reflexivity. Qed.
+
+Lemma slot_ok_mono vv hist hs k e : slot_ok vv hist k e -> slot_ok vv (hist ++ [hs]) k e.
+Proof.
+  intros [H|[H|H]].
+  - left. destruct H as (H1 & H2 & H3 & H4 & hi & H5). repeat split; try assumption. exists hi. now apply nthN_app_l.
+  - right. now left.
+  - right. right. destruct H as (H1 & H2 & H3 & H4 & H5 & hi & H6 & H7). repeat split; try assumption.
+    exists hi. split; [now apply nthN_app_l|assumption].
+Qed.
+
+Lemma make_mark_novary hs : make_mark [] hs = [].
+Proof. reflexivity. Qed.
+
+(* a body served from the store was stored for a request with the same mark, and that mark is not "*" *)
+Lemma cache_hit_sound vv hist st hs e m : inv vv hist st ->
+  cache_hit 3 st [] hs = (Hit e, m) ->
+  exists hi, nthN (e_src e) hist = Some hi /\ make_mark vv hi = make_mark vv hs /\ make_mark vv hs <> star.
+Proof.
+  intros Hinv. cbn [cache_hit].
+  destruct (lookup st []) as [e0|] eqn:L0; [|discriminate].
+  pose proof (Hinv _ _ (lookup_in _ _ _ L0)) as S0.
+  destruct S0 as [S0|[S0|S0]].
+  - (* a non-varying object *)
+    destruct S0 as (Hvv & _ & Hev & Hem & hi & Hsrc). subst vv.
+    unfold vary_evaluate_match. rewrite Hev, Hem. cbn [negb orb is_nil].
+    destruct (e_reval e0); [discriminate|]. intros H. injection H as <- _.
+    exists hi. split; [exact Hsrc|]. rewrite !make_mark_novary. split; [reflexivity|discriminate].
+  - (* the marker: compute the mark and look again *)
+    destruct S0 as (Hvv & _ & He0). subst e0.
+    unfold vary_evaluate_match at 1. cbn [marker e_vary e_mark is_nil negb orb].
+    destruct vv as [|v0 vr]; [contradiction|]. cbn [negb orb].
+    destruct (make_mark (v0 :: vr) hs) as [|c r] eqn:Emk; cbn [is_nil negb]; [discriminate|].
+    destruct (lookup st (c :: r)) as [e1|] eqn:L1; [|discriminate].
+    pose proof (Hinv _ _ (lookup_in _ _ _ L1)) as S1.
+    destruct S1 as [S1|[S1|S1]]; [destruct S1 as (? & ? & _); discriminate|destruct S1 as (_ & ? & _); discriminate|].
+    destruct S1 as (_ & Hk & Hev & Hne & Hrv & hi & Hsrc & Hmk).
+    destruct (vary_evaluate_match e1 (c :: r) hs) as [[| | |] m1] eqn:Ev1.
+    + (* VARY_NONE is impossible for a variant *)
+      exfalso. unfold vary_evaluate_match in Ev1. rewrite Hev in Ev1. cbn [negb orb] in Ev1.
+      destruct (is_nil (e_mark e1)) eqn:En; [destruct (e_mark e1); [contradiction|discriminate]|].
+      cbn [is_nil] in Ev1. destruct (list_eqb (c :: r) (e_mark e1)); discriminate.
+    + destruct (e_reval e1) eqn:Er; [discriminate|]. intros H. injection H as <- _.
+      exists hi. split; [exact Hsrc|]. rewrite <- Hmk, <- Hk. split; [reflexivity|].
+      intros Hs. rewrite Hk, Hs in Hrv. rewrite Er in Hrv. discriminate.
+    + (* VARY_OTHER is impossible on a non-empty request mark *)
+      exfalso. unfold vary_evaluate_match in Ev1. rewrite Hev in Ev1. cbn [negb orb] in Ev1.
+      destruct (is_nil (e_mark e1)) eqn:En; [destruct (e_mark e1); [contradiction|discriminate]|].
+      cbn [is_nil] in Ev1. destruct (list_eqb (c :: r) (e_mark e1)); discriminate.
+    + discriminate.
+  - (* a variant is never stored under the empty key *)
+    exfalso. destruct S0 as (_ & Hk & _ & Hne & _). now apply Hne.
+Qed.
+
+Lemma inv_remove vv hist st k : inv vv hist st -> inv vv hist (remove st k).
+Proof. intros H k' e Hin. unfold remove in Hin. apply filter_In in Hin. apply H, Hin. Qed.
+Lemma inv_put vv hist st k e : inv vv hist st -> slot_ok vv hist k e -> inv vv hist (put st k e).
+Proof. intros H Hs k' e' [Hin|Hin]; [injection Hin as <- <-; exact Hs|apply H, Hin]. Qed.
+Lemma inv_mono vv hist hs st : inv vv hist st -> inv vv (hist ++ [hs]) st.
+Proof. intros H k e Hin. apply slot_ok_mono, H, Hin. Qed.
+
+Lemma store_reply_inv vv hist st rm hs : inv vv hist st ->
+  inv vv (hist ++ [hs]) (store_reply st rm vv hs (lenN hist)).
+Proof.
+  intros Hinv. apply (inv_mono _ _ hs) in Hinv. unfold store_reply. destruct vv as [|v0 vr] eqn:Evv.
+  - apply inv_put; [exact Hinv|]. left. cbn [e_vary e_mark e_src]. repeat split. exists hs. apply nthN_last.
+  - rewrite <- Evv in *. assert (Hne : vv <> []) by (rewrite Evv; discriminate).
+    destruct (is_nil (make_mark vv hs)) eqn:En; [exact Hinv|].
+    set (changed := negb (is_nil rm) && negb (list_eqb rm (make_mark vv hs))).
+    set (st1 := if changed then remove st [] else st).
+    assert (H1 : inv vv (hist ++ [hs]) st1) by (unfold st1; destruct changed; [apply inv_remove|]; exact Hinv).
+    set (st2 := match lookup st1 [] with None => put st1 [] (marker vv) | Some _ => st1 end).
+    assert (H2 : inv vv (hist ++ [hs]) st2).
+    { unfold st2. destruct (lookup st1 []); [exact H1|]. apply inv_put; [exact H1|]. right. left. now repeat split. }
+    assert (Hkey : (if is_nil (if changed then [] else rm) then make_mark vv hs else (if changed then [] else rm)) = make_mark vv hs).
+    { unfold changed. destruct rm as [|c r]; cbn [is_nil negb andb]; [reflexivity|].
+      destruct (list_eqb (c :: r) (make_mark vv hs)) eqn:El; cbn [negb is_nil]; [|reflexivity].
+      now apply list_eqb_eq in El. }
+    rewrite Hkey. apply inv_put; [exact H2|]. right. right. cbn [e_vary e_mark e_reval e_src].
+    repeat split; try assumption; try reflexivity.
+    + intros E. rewrite E in En. discriminate.
+    + exists hs. split; [apply nthN_last|reflexivity].
+Qed.
+
+(* ---- the whole run ---- *)
+Lemma nthN_0 {A} (x : A) r : nthN 0 (x :: r) = Some x.
+Proof. reflexivity. Qed.
+Lemma nthN_S {A} (x : A) r j : j <> 0 -> nthN j (x :: r) = nthN (N.pred j) r.
+Proof. intros H. cbn [nthN]. apply N.eqb_neq in H. now rewrite H. Qed.
+
+Lemma run_sound vv : forall todo hist st, inv vv hist st ->
+  forall j i hj, nthN j (run vv st (lenN hist) todo) = Some i -> nthN j todo = Some hj -> i <> lenN hist + j ->
+  exists hi, nthN i (hist ++ todo) = Some hi /\ i < lenN hist + j /\
+             make_mark vv hi = make_mark vv hj /\ make_mark vv hj <> star.
+Proof.
+  induction todo as [|hs todo IH]; intros hist st Hinv j i hj Hsrc Hreq Hne; [discriminate|].
+  cbn [run] in Hsrc. destruct (process st vv hs (lenN hist)) as [src st'] eqn:Ep.
+  destruct (N.eq_dec j 0) as [->|Hj].
+  - rewrite nthN_0 in Hsrc, Hreq. injection Hsrc as ->. injection Hreq as ->.
+    unfold process in Ep. destruct (cache_hit 3 st [] hj) as [[e|e| |] m] eqn:Ec;
+      try (injection Ep as <- _; rewrite N.add_0_r in Hne; contradiction).
+    injection Ep as <- _. destruct (cache_hit_sound vv hist st hj e m Hinv Ec) as (hi & H1 & H2 & H3).
+    exists hi. split; [now apply nthN_app_l|]. split; [apply nthN_lt in H1; lia|]. now split.
+  - rewrite nthN_S in Hsrc, Hreq by exact Hj.
+    assert (Hinv' : inv vv (hist ++ [hs]) st').
+    { unfold process in Ep. destruct (cache_hit 3 st [] hs) as [[e|e| |] m];
+        injection Ep as _ <-; try apply store_reply_inv; try exact Hinv. now apply inv_mono. }
+    assert (Hlen : lenN (hist ++ [hs]) = lenN hist + 1) by (rewrite lenN_app; reflexivity).
+    replace (lenN hist + 1) with (lenN (hist ++ [hs])) in Hsrc by exact Hlen.
+    destruct (IH (hist ++ [hs]) st' Hinv' (N.pred j) i hj Hsrc Hreq) as (hi & H1 & H2 & H3 & H4); [lia|].
+    exists hi. rewrite <- app_assoc in H1. split; [exact H1|]. split; [lia|]. now split.
+Qed.
+
+Lemma inv_empty vv : inv vv [] [].
+Proof. intros k e []. Qed.
+
+(* every response served from the cache was stored for a request with the same mark, which is not "*" *)
+Theorem run_hits_same_mark vv reqs j i hj :
+  nthN j (run vv [] 0 reqs) = Some i -> nthN j reqs = Some hj -> i <> j ->
+  exists hi, nthN i reqs = Some hi /\ i < j /\ make_mark vv hi = make_mark vv hj /\ make_mark vv hj <> star.
+Proof.
+  intros H1 H2 H3. destruct (run_sound vv reqs [] [] (inv_empty vv) j i hj H1 H2) as (hi & G1 & G2 & G3 & G4).
+  - cbn [lenN]. lia.
+  - exists hi. cbn [lenN app] in *. repeat split; try assumption. lia.
+Qed.
+
+(* ... hence every nominated field reads the same in both requests *)
+Theorem run_hits_fields_read_equal vv reqs j i hj : Forall block_ok reqs ->
+  nthN j (run vv [] 0 reqs) = Some i -> nthN j reqs = Some hj -> i <> j ->
+  exists hi, nthN i reqs = Some hi /\ i < j /\ ~ In star (vary_items vv) /\
+    forall item, In item (vary_items vv) -> get_by_name hi (lower item) = get_by_name hj (lower item).
+Proof.
+  intros Hok H1 H2 H3. destruct (run_hits_same_mark vv reqs j i hj H1 H2 H3) as (hi & G1 & G2 & G3 & G4).
+  exists hi. split; [exact G1|]. split; [exact G2|]. pose proof (mark_not_star vv hj G4) as Hs. split; [exact Hs|].
+  assert (nth_in : forall (l : list (list hdr)) k x, nthN k l = Some x -> In x l).
+  { induction l as [|y l IHl]; intros k x Hk; cbn [nthN] in Hk; [discriminate|].
+    destruct (k =? 0); [injection Hk as <-; now left|right; eapply IHl, Hk]. }
+  rewrite Forall_forall in Hok.
+  exact (mark_injective vv hi hj (Hok _ (nth_in _ _ _ G1)) (Hok _ (nth_in _ _ _ H2)) Hs G3).
+Qed.
+
+(* Vary: * (anywhere in the list): nothing is ever served from the cache *)
+Theorem star_never_served_from_cache vv reqs j i :
+  In star (vary_items vv) -> nthN j (run vv [] 0 reqs) = Some i -> j < lenN reqs -> i = j.
+Proof.
+  intros Hs H1 Hj. destruct (N.eq_dec i j) as [E|E]; [exact E|exfalso].
+  assert (exists hj, nthN j reqs = Some hj) as [hj H2].
+  { clear H1 E. revert j Hj. induction reqs as [|h r IH]; intros j Hj; cbn [lenN] in Hj; [lia|].
+    cbn [nthN]. destruct (j =? 0) eqn:E0; [eauto|]. apply IH. lia. }
+  destruct (run_hits_same_mark vv reqs j i hj H1 H2 E) as (_ & _ & _ & _ & G4).
+  apply G4. now apply make_mark_star.
+Qed.
+
+(* ================================================================== *)
+(* 6. the full-strength statement is false for registered single-value headers *)
+Definition b (l : list nat) : bytes := map N.of_nat l.
+Definition n_cookie := b [67;111;111;107;105;101]%nat.
+Definition n_user_agent := b [85;115;101;114;45;65;103;101;110;116]%nat.
+Definition lines_of (name : bytes) (hs : list hdr) : list bytes := map h_value (filter (fun h => ci_eqb (h_name h) name) hs).
+
+(* Vary: Cookie; request 0 `Cookie: a=1`; request 1 `Cookie: a=1` + `Cookie: b=2` is served request 0's body *)
+Definition w_cookie1 : list hdr := [{| h_name := n_cookie; h_value := b [97;61;49]%nat |}].
+Definition w_cookie2 : list hdr := w_cookie1 ++ [{| h_name := n_cookie; h_value := b [98;61;50]%nat |}].
+Theorem singleton_extra_lines_refuted :
+  exists vv hs1 hs2, block_ok hs1 /\ block_ok hs2 /\ vary_items vv = [n_cookie] /\
+    run vv [] 0 [hs1; hs2] = [0; 0] /\ lines_of n_cookie hs1 <> lines_of n_cookie hs2.
+Proof.
+  exists [n_cookie], w_cookie1, w_cookie2.
+  split; [repeat constructor; cbn; lia|]. split; [repeat constructor; cbn; lia|].
+  split; [vm_compute; reflexivity|]. split; [vm_compute; reflexivity|]. vm_compute. discriminate.
+Qed.
+
+(* Vary: User-Agent; request 0 has no User-Agent; request 1 `User-Agent:` (empty) is served request 0's body *)
+Definition w_ua_empty : list hdr := [{| h_name := n_user_agent; h_value := [] |}].
+Theorem singleton_empty_refuted :
+  exists vv hs1 hs2, block_ok hs1 /\ block_ok hs2 /\ vary_items vv = [n_user_agent] /\
+    run vv [] 0 [hs1; hs2] = [0; 0] /\ lines_of n_user_agent hs1 = [] /\ lines_of n_user_agent hs2 = [[]].
+Proof.
+  exists [n_user_agent], [], w_ua_empty.
+  split; [constructor|]. split; [repeat constructor|].
+  split; [vm_compute; reflexivity|]. split; [vm_compute; reflexivity|]. split; vm_compute; reflexivity.
+Qed.
+
+(* for unregistered and registered list headers equal reading is: same presence, same joined value *)
+Theorem same_reading_partial hs1 hs2 name :
+  lookup_id hdr_table name = hdr_OTHER \/ is_list_hdr (lookup_id hdr_table name) = true ->
+  get_by_name hs1 name = get_by_name hs2 name ->
+  let sel := if lookup_id hdr_table name =? hdr_OTHER then (fun h => ci_eqb (h_name h) name)
+             else (fun h => hdr_id h =? lookup_id hdr_table name) in
+  (line_values sel hs1 = [] <-> line_values sel hs2 = []) /\
+  join_list (drop_nil (line_values sel hs1)) = join_list (drop_nil (line_values sel hs2)).
+Proof.
+  intros Hk H. cbv zeta.
+  assert (G : joined_spec (line_values (if lookup_id hdr_table name =? hdr_OTHER then (fun h => ci_eqb (h_name h) name)
+                                        else (fun h => hdr_id h =? lookup_id hdr_table name)) hs1) =
+              joined_spec (line_values (if lookup_id hdr_table name =? hdr_OTHER then (fun h => ci_eqb (h_name h) name)
+                                        else (fun h => hdr_id h =? lookup_id hdr_table name)) hs2)).
+  { destruct (lookup_id hdr_table name =? hdr_OTHER) eqn:E.
+    - apply N.eqb_eq in E. now rewrite <- !read_unregistered.
+    - apply N.eqb_neq in E. destruct Hk as [Hk|Hk]; [contradiction|]. now rewrite <- !read_registered_list. }
+  unfold joined_spec in G.
+  destruct (line_values _ hs1) as [|a1 r1], (line_values _ hs2) as [|a2 r2]; try discriminate.
+  - split; [tauto|reflexivity].
+  - injection G as G. split; [split; discriminate|exact G].
+Qed.
